@@ -188,6 +188,8 @@ package index
 //@ func Writer.currentSnapshot
 //@   props C15 C04
 //@   lockset
+//@   modifies heldR, heldW, Snapshot.refs
+//@   ensures heldR == old(heldR) && heldW == old(heldW)
 //@   at call addRef: assert heldR[addr(s, rootLock)] || heldW[addr(s, rootLock)]
 
 // ---------------------------------------------------------------------------
@@ -251,3 +253,31 @@ package index
 //@   loop 1
 //@     invariant rangeindex < len(snapshot.segment)
 //@     invariant forall k int :: 0 <= k && k <= rangeindex ==> (snapshot.segment[k].segment.persisted || segOnDisk[snapshot.segment[k].id])
+
+//@ func Writer.persistSnapshotMaybeMerge
+//@   props C02 C14
+//@   heap_wf
+//@   requires snapshot != nil
+//@   ensures [equivalent-snapshot-durable] (result0 && result1 == nil) ==> snpOnDisk[snapshot.epoch]
+
+//@ func Writer.persistSnapshot
+//@   props C02 C14
+//@   requires snapshot != nil
+//@   ensures [durable-on-success] result == nil ==> snpOnDisk[snapshot.epoch]
+
+// The persister: a batch is acknowledged (its channel closed without an error having been sent, its
+// callback invoked) only when the snapshot taken together with those channels and callbacks
+// has been persisted; on failure every waiting batch gets the error, the async error callback
+// fires, the callbacks are kept for the next success, and the loop goes on.
+//@ func Writer.persisterLoop
+//@   props C02 C14
+//@   check nilfunc
+//@   at call close: assert [ack-only-after-durable-or-error-sent] errSent[ch] || (err == nil && ourSnapshot != nil && snpOnDisk[ourSnapshot.epoch])
+//@   at call funcvalue: assert [callback-only-after-durable] err == nil && ourSnapshot != nil && snpOnDisk[ourSnapshot.epoch]
+
+// prepareSegment: nil is returned only after the introduction was applied and, in safe mode,
+// after the persister reported nil on the batch's channel.
+//@ func Writer.prepareSegment
+//@   props C02 C05
+//@   exit [applied-before-return] result == nil ==> gotNil[introduction.applied]
+//@   exit [safe-mode-waits-for-persist] (result == nil && !s.config.UnsafeBatch) ==> gotNil[introduction.persisted]
